@@ -92,6 +92,21 @@ class CountingEvaluator(Evaluator):
             yield {'i': i, 'reward': r, 'n_actions': len(inter['actions']), 'seed': seed}
 
 
+class SummaryEvaluator(Evaluator):
+    """Custom evaluator that yields ONE summary row per evaluation - also for an environment without interactions."""
+    @property
+    def params(self): return {'eval_type': 'Summary'}
+
+    def evaluate(self, environment, learner):
+        n = 0; total = 0.0
+        for inter in environment.read():
+            n += 1
+            r = inter['rewards']
+            a = inter['actions'][0]
+            total += r(a) if callable(r) else r[0]
+        yield {'n_interactions': n, 'first_action_total': total}
+
+
 def _syn(n=4, seed=1, **kw):
     return Environments.from_linear_synthetic(n, n_actions=3, n_context_features=2, n_action_features=2, seed=seed, **kw)
 
@@ -123,6 +138,9 @@ def build(shape):
         return ('cross', _syn(5, 1), [InfoLearner()], [SequentialCB(), SequentialCB(record=['action', 'reward'])])
     if shape == 'S9':   # the same behind a chunk (both evaluations end up in one chunk)
         return ('cross', _syn(5, 2).chunk(), [InfoLearner(), BanditEpsilonLearner(0.3, seed=6)], [SequentialCB(), SequentialCB(record=['action', 'reward', 'probability'])])
+    if shape == 'S10':  # an environment that turns out to be EMPTY (dropped by where) next to a normal one, behind one chunk
+        envs = (_syn(4, 1) + _syn(3, 2)).chunk().where(n_interactions=(4, None))
+        return ('cross', envs, [RandomLearner(seed=3)], [SummaryEvaluator(), SequentialCB()])
     raise ValueError(shape)
 
 
